@@ -186,6 +186,51 @@ def ppf_obligations(chk, P, fam, F, resP, Hs, box, thbox, fq=None):
                    clause='i-th output depends only on (y[i], v[i])'))
 
 
+def bounded_elementwise(chk):
+    """BOUNDED native stand-in for the element-wise clause on floats (the proof treats the loop over the elements as a map
+    and refuses a loop-carried dependence; whether a dependence that only shows in floating point changes results is outside
+    the reals): every element of a random batch, computed inside the batch and alone, must agree"""
+    import warnings
+    import numpy as np
+    warnings.simplefilter('ignore')
+    import copulas.bivariate as cb
+    from pyvc import report as report_mod
+    n = 1500 if chk.tier == 'quick' else 20000
+    rs = np.random.RandomState(20 + (chk.seed or 0))
+    evals = 0
+    for fam, cls, theta in (('frank', cb.Frank, 18.19), ('frank', cb.Frank, -18.19), ('gumbel', cb.Gumbel, 5.0),
+                            ('gumbel', cb.Gumbel, 1.7), ('clayton', cb.Clayton, 8.0)):
+        c = cls()
+        c.theta, c.tau = theta, 0.5
+        y = rs.uniform(2e-4, 1 - 1e-4, size=n)          # above the recorded Gumbel bracket finding (y, v <= 1.6e-4)
+        v = rs.uniform(2e-4, 1 - 1e-4, size=n)
+        # adjacent extremes: a root near 1 followed by a small v, a root near 0 followed by v near 1
+        y[::50], v[::50] = 0.9, 0.999
+        y[1::50], v[1::50] = 0.5, 0.01
+        try:
+            with report_mod.time_limit(240):
+                batch = np.asarray(c.percent_point(y, v), dtype=float)
+                idx = np.concatenate([np.arange(0, n, 50), np.arange(1, n, 50), rs.choice(n, size=min(n, 400), replace=False)])
+                for i in idx:
+                    alone = float(np.ravel(c.percent_point(y[i:i + 1], v[i:i + 1]))[0])
+                    evals += 1
+                    if not (abs(alone - batch[i]) <= 1e-9):
+                        chk.bounded_violation('C08.%s.ppf.elementwise.bounded' % fam,
+                                              {'family': fam, 'theta': theta, 'index': int(i), 'y': float(y[i]), 'v': float(v[i]),
+                                               'previous': [float(y[i - 1]), float(v[i - 1])] if i else None},
+                                              'percent_point of element %d is %.9g inside the batch and %.9g alone' %
+                                              (i, batch[i], alone))
+                        break
+        except report_mod.NativeTimeout:
+            pass
+        except Exception as e:      # noqa
+            chk.notes.append('bounded element-wise run of %s: %s: %s' % (fam, type(e).__name__, str(e)[:80]))
+    chk.bounded.append({'name': 'C08.ppf.elementwise.bounded', 'clause': 'each element independently of the others (floats)',
+                        'bound': 'batches of %d random (y, v) in [2e-4, 1-1e-4]^2 with adjacent extreme elements, 5 (family, theta) '
+                                 'pairs; elements recomputed alone: the 2 x %d planted ones and 400 random ones' % (n, n // 50),
+                        'evaluations': evals, 'distinct_nontrivial': evals, 'rule': 'one case = one element recomputed alone'})
+
+
 def build(chk):
     I0 = engine.new_interp()
     src = I0.source
@@ -205,6 +250,7 @@ def build(chk):
         Hs = returned(resH)
         _, resP, ctxP = biv.run_method(fam, 'percent_point', args='yV', extra_req=[dom])
         ppf_obligations(chk, 'C08', fam, F, resP, Hs, box, thbox)
+    bounded_elementwise(chk)
     chk.lemmas += ['L4 (cited)']
     chk.assumptions += [
         'reals, not floats; brentq tolerance (xtol = 2e-12) neglected: its contract returns an exact root',
